@@ -35,6 +35,7 @@ CONSTANTS Req,          \* the requesting tasks
           MaxRounds,    \* requests per requester
           Mode,         \* "conn": ConnectionInfo (every context has a session of its own) | "sess": AiohttpSession (one session per value)
           LoginOutcomes,\* what a login handler may return for a key: subset of {"fresh", "same", "none"}
+          SameIsIdentical, \* a login handler that returns credentials again returns the very same object (TRUE) or an equal one (FALSE)
           Variant       \* "code": as the code has it | "bykey": invalidate() removes whatever is current under the key, not the very item
                         \* that failed (a negative variant: a late 401 on old credentials throws the fresh ones away) | "f37": the code
                         \* before the repair F37 (extended() made the caches and the context in two blocks without looking whether
@@ -52,6 +53,7 @@ Ctxs == 1..MaxCtx
 VARIABLES
   cur,        \* [Keys -> Items \cup {0}]      Vault._current
   val,        \* [Items -> Nat]                the value (credentials) of an item; 0 = not created
+  obj,        \* [Items -> Nat]                the identity of the item's info object (invalidate() compares with `is`)
   inval,      \* [Keys -> Seq(Items)]          Vault._invalid (the last three per key)
   ready,      \* Vault._ready
   cache,      \* [Items -> {"none","empty","ctx"}]   item.caches: None / {} / {'contexts': ctx}
@@ -76,7 +78,7 @@ VARIABLES
   leakedCtx,            \* ghost: contexts created for an item that is no longer in the vault (their session is never closed)
   logins, emptied       \* ghost: login activities run; transitions ready: TRUE -> FALSE
 
-vaultVars == <<cur, val, inval, ready, cache, ctxOf, ctxItem, closedS, nitem, nval, nctx>>
+vaultVars == <<cur, val, obj, inval, ready, cache, ctxOf, ctxItem, closedS, nitem, nval, nctx>>
 lockVars  == <<holder, lockQ, condQ, woken>>
 ctlVars   == <<run, pc, cont>>
 reqVars   == <<held, hkey, hctx, att, xs>>
@@ -92,7 +94,7 @@ Top == {k \in Live : \A j \in Live : Prio[j] <= Prio[k]}
 Empty == Live = {}
 
 Init ==
-  /\ cur = [k \in Keys |-> 0] /\ val = [i \in Items |-> 0] /\ inval = [k \in Keys |-> <<>>] /\ ready = FALSE
+  /\ cur = [k \in Keys |-> 0] /\ val = [i \in Items |-> 0] /\ obj = [i \in Items |-> 0] /\ inval = [k \in Keys |-> <<>>] /\ ready = FALSE
   /\ cache = [i \in Items |-> "none"] /\ ctxOf = [i \in Items |-> 0] /\ ctxItem = [c \in Ctxs |-> 0] /\ closedS = {}
   /\ holder = NoTask /\ lockQ = <<>> /\ condQ = {} /\ woken = {}
   /\ run = NoTask /\ pc = [t \in Task |-> "idle"] /\ cont = [t \in Task |-> "idle"]
@@ -153,24 +155,24 @@ X_flush(r) ==       \* the next one (in the order of the dictionary: any)
        /\ IF cache[cur[k]] = "ctx" THEN closedS' = closedS \cup {Sess(ctxOf[cur[k]])} /\ run' \in {r, NoTask}
                                   ELSE closedS' = closedS /\ run' = r
   /\ Go(r, "X_flushing")
-  /\ UNCHANGED <<cur, val, inval, ready, cache, ctxOf, ctxItem, nitem, nval, nctx, lockVars, cont, held, hctx, att, xs, envVars, ghostVars>>
+  /\ UNCHANGED <<cur, val, obj, inval, ready, cache, ctxOf, ctxItem, nitem, nval, nctx, lockVars, cont, held, hctx, att, xs, envVars, ghostVars>>
 X_flushed(r) ==     \* close() has returned: caches = None
   /\ (run = r \/ run = NoTask) /\ pc[r] = "X_flushing" /\ holder = r /\ run' = r
   /\ LET i == cur[hkey[r]] IN cache' = [cache EXCEPT ![i] = "none"] /\ ctxOf' = [ctxOf EXCEPT ![i] = 0]
   /\ Go(r, "X_del")
-  /\ UNCHANGED <<cur, val, inval, ready, ctxItem, closedS, nitem, nval, nctx, lockVars, cont, reqVars, envVars, ghostVars>>
+  /\ UNCHANGED <<cur, val, obj, inval, ready, ctxItem, closedS, nitem, nval, nctx, lockVars, cont, reqVars, envVars, ghostVars>>
 X_del(r) ==         \* the item is dropped -- and not remembered
   /\ run = r /\ pc[r] = "X_del" /\ holder = r
   /\ LET k == hkey[r] i == cur[k] IN
      /\ cur' = [cur EXCEPT ![k] = 0] /\ expiredOut' = expiredOut \cup {i} /\ xs' = [xs EXCEPT ![r] = @ \ {k}]
      /\ Go(r, IF xs[r] \ {k} = {} THEN "X_end" ELSE "X_flush")
-  /\ UNCHANGED <<val, inval, ready, cache, ctxOf, ctxItem, closedS, nitem, nval, nctx, lockVars, cont, run, held, hkey, hctx, att, envVars,
+  /\ UNCHANGED <<val, obj, inval, ready, cache, ctxOf, ctxItem, closedS, nitem, nval, nctx, lockVars, cont, run, held, hkey, hctx, att, envVars,
                  invalidated, reused, leakedCtx, logins, emptied, usedExpired>>
 X_end(r) ==
   /\ run = r /\ pc[r] = "X_end" /\ holder = r
   /\ IF Empty THEN /\ ready' = FALSE /\ NotifyAll /\ emptied' = (IF ready THEN emptied + 1 ELSE emptied) /\ Go(r, "X_wait")
               ELSE /\ Go(r, "A_sel") /\ UNCHANGED <<ready, condQ, woken, emptied>>
-  /\ UNCHANGED <<cur, val, inval, cache, ctxOf, ctxItem, closedS, nitem, nval, nctx, holder, lockQ, cont, run, reqVars, envVars,
+  /\ UNCHANGED <<cur, val, obj, inval, cache, ctxOf, ctxItem, closedS, nitem, nval, nctx, holder, lockQ, cont, run, reqVars, envVars,
                  invalidated, reused, leakedCtx, logins, expiredOut, usedExpired>>
 X_wait(r) ==
   /\ run = r /\ pc[r] = "X_wait"
@@ -203,13 +205,13 @@ BC_set(r) ==
      ELSE /\ nctx < MaxCtx /\ nctx' = nctx + 1
           /\ ctxOf' = [ctxOf EXCEPT ![i] = nctx + 1] /\ ctxItem' = [ctxItem EXCEPT ![nctx + 1] = i] /\ cache' = [cache EXCEPT ![i] = "ctx"]
           /\ hctx' = [hctx EXCEPT ![r] = nctx + 1] /\ Go(r, "C_rel")
-          /\ UNCHANGED <<cur, val, inval, ready, closedS, nitem, nval>>
+          /\ UNCHANGED <<cur, val, obj, inval, ready, closedS, nitem, nval>>
   /\ UNCHANGED <<lockVars, cont, run, held, hkey, att, xs, envVars, ghostVars>>
 BC_stale(r) == run = r /\ pc[r] = "BC_stale" /\ Release(r, "E_acq") /\ UNCHANGED <<vaultVars, reqVars, envVars, ghostVars>>
 B_set(r) ==
   /\ run = r /\ pc[r] = "B_set" /\ holder = r
   /\ cache' = [cache EXCEPT ![held[r]] = IF @ = "none" THEN "empty" ELSE @] /\ Go(r, "B_rel")
-  /\ UNCHANGED <<cur, val, inval, ready, ctxOf, ctxItem, closedS, nitem, nval, nctx, lockVars, cont, run, reqVars, envVars, ghostVars>>
+  /\ UNCHANGED <<cur, val, obj, inval, ready, ctxOf, ctxItem, closedS, nitem, nval, nctx, lockVars, cont, run, reqVars, envVars, ghostVars>>
 B_rel(r) == run = r /\ pc[r] = "B_rel" /\ Release(r, "C_chk") /\ UNCHANGED <<vaultVars, reqVars, envVars, ghostVars>>
 C_chk(r) ==
   /\ run = r /\ pc[r] = "C_chk"
@@ -229,7 +231,7 @@ C_set(r) ==
         /\ ctxOf' = [ctxOf EXCEPT ![i] = nctx + 1] /\ ctxItem' = [ctxItem EXCEPT ![nctx + 1] = i] /\ cache' = [cache EXCEPT ![i] = "ctx"]
         /\ hctx' = [hctx EXCEPT ![r] = nctx + 1] /\ Go(r, "C_rel")
         /\ leakedCtx' = IF \E k \in Keys : cur[k] = i THEN leakedCtx ELSE leakedCtx \cup {nctx + 1}
-        /\ UNCHANGED <<cur, val, inval, ready, closedS, nitem, nval>>
+        /\ UNCHANGED <<cur, val, obj, inval, ready, closedS, nitem, nval>>
   /\ UNCHANGED <<lockVars, cont, run, held, hkey, att, xs, envVars, invalidated, reused, logins, emptied, expiredOut, usedExpired>>
 C_crash(r) == run = r /\ pc[r] = "C_crash" /\ holder = r /\ holder' = NoTask /\ Go(r, "crashed") /\ run' = NoTask
               /\ UNCHANGED <<vaultVars, lockQ, condQ, woken, cont, reqVars, envVars, ghostVars>>
@@ -259,7 +261,9 @@ Retry(r) ==         \* after the backoff: the same context again
 D_acq(r) == run = r /\ pc[r] = "D_acq" /\ Acquire(r, "D_chk") /\ UNCHANGED <<vaultVars, condQ, woken, reqVars, envVars, ghostVars>>
 D_chk(r) ==
   /\ run = r /\ pc[r] = "D_chk" /\ holder = r
-  /\ IF cur[hkey[r]] = held[r] \/ (Variant = "bykey" /\ cur[hkey[r]] # 0) THEN Go(r, "D_flush") ELSE Go(r, "D_empty")
+  \* `self._current[key].info is info`: the current item of the key carries the very info object of the item that failed (that is the
+  \* item itself -- or a later one made from the same object, when a login handler returned it again)
+  /\ IF (cur[hkey[r]] # 0 /\ obj[cur[hkey[r]]] = obj[held[r]]) \/ (Variant = "bykey" /\ cur[hkey[r]] # 0) THEN Go(r, "D_flush") ELSE Go(r, "D_empty")
   /\ UNCHANGED <<vaultVars, lockVars, cont, run, reqVars, envVars, ghostVars>>
 Victim(r) == cur[hkey[r]]      \* the item that invalidate() removes: the one that failed (or, in the negative variant, its successor)
 D_flush(r) ==       \* _flush_caches: close the context if there is one -- its session counts as closed from now on; close() may suspend
@@ -268,24 +272,24 @@ D_flush(r) ==       \* _flush_caches: close the context if there is one -- its s
      THEN closedS' = closedS \cup {Sess(ctxOf[Victim(r)])} /\ run' \in {r, NoTask}
      ELSE closedS' = closedS /\ run' = r
   /\ Go(r, "D_flushing")
-  /\ UNCHANGED <<cur, val, inval, ready, cache, ctxOf, ctxItem, nitem, nval, nctx, lockVars, cont, reqVars, envVars, ghostVars>>
+  /\ UNCHANGED <<cur, val, obj, inval, ready, cache, ctxOf, ctxItem, nitem, nval, nctx, lockVars, cont, reqVars, envVars, ghostVars>>
 D_flushed(r) ==     \* ... close() has returned: caches = None
   /\ (run = r \/ run = NoTask) /\ pc[r] = "D_flushing" /\ holder = r /\ run' = r
   /\ cache' = [cache EXCEPT ![Victim(r)] = "none"] /\ ctxOf' = [ctxOf EXCEPT ![Victim(r)] = 0]
   /\ Go(r, "D_del")
-  /\ UNCHANGED <<cur, val, inval, ready, ctxItem, closedS, nitem, nval, nctx, lockVars, cont, reqVars, envVars, ghostVars>>
+  /\ UNCHANGED <<cur, val, obj, inval, ready, ctxItem, closedS, nitem, nval, nctx, lockVars, cont, reqVars, envVars, ghostVars>>
 D_del(r) ==         \* the item is remembered as invalid (the last three per key) and removed from the current ones
   /\ run = r /\ pc[r] = "D_del" /\ holder = r
   /\ LET i == Victim(r) k == hkey[r] IN
      /\ inval' = [inval EXCEPT ![k] = Append(Last2(@), i)] /\ cur' = [cur EXCEPT ![k] = 0]
      /\ invalidated' = invalidated \cup {i}
   /\ Go(r, "D_empty")
-  /\ UNCHANGED <<val, ready, cache, ctxOf, ctxItem, closedS, nitem, nval, nctx, lockVars, cont, run, reqVars, envVars, reused, leakedCtx, logins, emptied, expiredOut, usedExpired>>
+  /\ UNCHANGED <<val, obj, ready, cache, ctxOf, ctxItem, closedS, nitem, nval, nctx, lockVars, cont, run, reqVars, envVars, reused, leakedCtx, logins, emptied, expiredOut, usedExpired>>
 D_empty(r) ==       \* nothing left: ask for re-authentication and wait for it
   /\ run = r /\ pc[r] = "D_empty" /\ holder = r
   /\ IF Empty THEN /\ ready' = FALSE /\ NotifyAll /\ emptied' = (IF ready THEN emptied + 1 ELSE emptied) /\ Go(r, "D_wait")
               ELSE /\ Go(r, "D_after") /\ UNCHANGED <<ready, condQ, woken, emptied>>
-  /\ UNCHANGED <<cur, val, inval, cache, ctxOf, ctxItem, closedS, nitem, nval, nctx, holder, lockQ, cont, run, reqVars, envVars,
+  /\ UNCHANGED <<cur, val, obj, inval, cache, ctxOf, ctxItem, closedS, nitem, nval, nctx, holder, lockQ, cont, run, reqVars, envVars,
                  invalidated, reused, leakedCtx, logins, expiredOut, usedExpired>>
 D_wait(r) ==
   /\ run = r /\ pc[r] = "D_wait"
@@ -323,19 +327,22 @@ Login(res) ==
   /\ nitem + Cardinality({k \in Keys : res[k] # NONE}) <= MaxItem
   /\ lres' = Concrete(res) /\ nval' = nval + Cardinality(Fresh(res)) /\ valid' = valid \cup {Concrete(res)[k] : k \in Fresh(res)}
   /\ logins' = logins + 1 /\ Go(AUTH, "a_popacq") /\ run' = AUTH
-  /\ UNCHANGED <<cur, val, inval, ready, cache, ctxOf, ctxItem, closedS, nitem, nctx, lockVars, cont, reqVars, nrev, nfault, rounds,
+  /\ UNCHANGED <<cur, val, obj, inval, ready, cache, ctxOf, ctxItem, closedS, nitem, nctx, lockVars, cont, reqVars, nrev, nfault, rounds,
                  expdV, nexp, invalidated, reused, leakedCtx, emptied, expiredOut, usedExpired>>
 a_popacq == run = AUTH /\ pc[AUTH] = "a_popacq" /\ Acquire(AUTH, "a_pop") /\ UNCHANGED <<vaultVars, condQ, woken, reqVars, envVars, ghostVars>>
 \* Vault.populate(): _update_converted (an item whose value equals a remembered invalid one of its key is not taken), ready, notify
 Refused(k, v) == v \in {val[i] : i \in Range(inval[k])}
-RECURSIVE Pop(_, _, _, _)
-Pop(k, c, v, n) ==     \* keys k..NKeys still to do; c, v, n: cur, val, nitem so far
-  IF k > NKeys THEN [c |-> c, v |-> v, n |-> n]
-  ELSE IF lres[k] = NONE \/ Refused(k, lres[k]) THEN Pop(k + 1, c, v, n)
-  ELSE Pop(k + 1, [c EXCEPT ![k] = n + 1], [v EXCEPT ![n + 1] = lres[k]], n + 1)
+LatestWith(v, n) == CHOOSE i \in 1..n : val[i] = v /\ \A j \in 1..n : val[j] = v => j <= i
+RECURSIVE Pop(_, _, _, _, _)
+Pop(k, c, v, o, n) ==     \* keys k..NKeys still to do; c, v, o, n: cur, val, obj, nitem so far
+  IF k > NKeys THEN [c |-> c, v |-> v, o |-> o, n |-> n]
+  ELSE IF lres[k] = NONE \/ Refused(k, lres[k]) THEN Pop(k + 1, c, v, o, n)
+  ELSE LET same == \E i \in 1..nitem : val[i] = lres[k] IN
+       Pop(k + 1, [c EXCEPT ![k] = n + 1], [v EXCEPT ![n + 1] = lres[k]],
+           [o EXCEPT ![n + 1] = IF same /\ SameIsIdentical THEN obj[LatestWith(lres[k], nitem)] ELSE n + 1], n + 1)
 a_pop ==
   /\ run = AUTH /\ pc[AUTH] = "a_pop" /\ holder = AUTH
-  /\ LET p == Pop(1, cur, val, nitem) IN cur' = p.c /\ val' = p.v /\ nitem' = p.n
+  /\ LET p == Pop(1, cur, val, obj, nitem) IN cur' = p.c /\ val' = p.v /\ obj' = p.o /\ nitem' = p.n
   /\ ready' = TRUE /\ NotifyAll /\ Go(AUTH, "a_rel")
   /\ UNCHANGED <<inval, cache, ctxOf, ctxItem, closedS, nval, nctx, holder, lockQ, cont, run, reqVars, envVars, ghostVars>>
 a_rel == run = AUTH /\ pc[AUTH] = "a_rel" /\ Release(AUTH, "a_acq") /\ UNCHANGED <<vaultVars, reqVars, envVars, ghostVars>>
